@@ -158,18 +158,33 @@ func (m tagMap) line() Line {
 
 	var sb strings.Builder
 	first := true
-	for _, k := range srtKeys {
+	for i, k := range srtKeys {
 		if !first {
 			sb.WriteString(kvstring.FieldsSeparator)
 		}
 		sb.WriteString(k)
 		sb.WriteString(kvstring.KeyValueSeparator)
 		v := m[k]
-		if len(v) == 0 || strings.IndexByte(v, kvstring.KeyValueSeparator[0]) >= 0 || strings.IndexByte(v, kvstring.FieldsSeparator[0]) >= 0 {
+		if valueNeedsQuote(v, i == len(srtKeys)-1) {
 			v = strconv.Quote(v)
 		}
 		sb.WriteString(v)
 		first = false
 	}
 	return Line(sb.String())
+}
+
+// valueNeedsQuote returns whether the value v must be written as a quoted literal, so that
+// the line is parsed back to the same value: empty values, values with separators, values
+// with leading or trailing spaces (the parser trims them), values which start with a quote
+// character (the parser would unquote them) and the last value of the line, if it ends with
+// the closing curly brace (the parser would take it for the closing brace of the line).
+func valueNeedsQuote(v string, last bool) bool {
+	if len(v) == 0 || strings.IndexByte(v, kvstring.KeyValueSeparator[0]) >= 0 || strings.IndexByte(v, kvstring.FieldsSeparator[0]) >= 0 {
+		return true
+	}
+	if v[0] == ' ' || v[len(v)-1] == ' ' || v[0] == '"' || v[0] == '`' {
+		return true
+	}
+	return last && v[len(v)-1] == '}'
 }
